@@ -476,19 +476,22 @@ Fixpoint lookup_dir (cid : Z) (table : list (Z * list (string * Z))) : option (l
 Definition decode_dir (cid : Z) (table : list (Z * list (string * Z))) : option (list (string * Z)) :=
   if cid =? 0 then Some [] else lookup_dir cid table.
 
+(* depth-first, children in order; each pending digest carries the hashes of the directories on the
+   path from the root to it: a stored blob that refers back to one of them is skipped *)
 Fixpoint tree_walk (fuel : nat) (c : fcfg) (d : dstate) (table : list (Z * list (string * Z)))
-         (stack : list (string * Z)) (acc : list Z) : dstate * status * list Z :=
+         (stack : list ((string * Z) * list string)) (acc : list Z) : dstate * status * list Z :=
   match fuel with
   | O => (d, SErr (EOther 0), [])
   | S f =>
       match stack with
       | [] => (d, SOk, acc)
-      | (h, s) :: rest =>
+      | ((h, s), anc) :: rest =>
           if negb (validate_hash h s) then (d, bad, []) else
+          if existsb (String.eqb h) anc then tree_walk f c d table rest acc else
           match get_blob_data c d h s with
           | (d', Ok cid) =>
               match decode_dir cid table with
-              | Some kids => tree_walk f c d' table (kids ++ rest) (acc ++ [cid])
+              | Some kids => tree_walk f c d' table (map (fun k => (k, h :: anc)) kids ++ rest) (acc ++ [cid])
               | None => tree_walk f c d' table rest acc
               end
           | (d', _) => tree_walk f c d' table rest acc
@@ -503,7 +506,8 @@ Definition get_tree (c : fcfg) (d : dstate) (root : string * Z) (table : list (Z
   match get_blob_data c d h s with
   | (d', Ok cid) =>
       match decode_dir cid table with
-      | Some kids => let n := (List.length table + 2)%nat in tree_walk (n * n) c d' table kids [cid]
+      | Some kids => let n := (List.length table + 2)%nat in
+                     tree_walk (n * n) c d' table (map (fun k => (k, [h])) kids) [cid]
       | None => (d', SErr EInternal, [])       (* DataLoss *)
       end
   | (d', Err ENotFound) => (d', SErr ENotFound, [])
